@@ -494,8 +494,21 @@ impl H {
                 self.exchange(&Req::new("DELETE", &format!("/{}", id_str(id))), Class::Ok2xx, "DELETE-id", "absent", false)?;
             }
             _ => {
-                let bad = *self.rng().pick(&["", "zzz", "cas/x", "03gy4klv2h02u3x987n90p9hdX"]);
-                self.exchange(&Req::new("DELETE", &format!("/{}", bad)), Class::Client4xx, "DELETE-id", "malformed-id", false)?;
+                // malformed ids, among them ones derived from an id that exists (nothing may be removed by them)
+                let existing = self.pick_existing().map(id_str);
+                let bad: String = match (self.rng().below(7), existing) {
+                    (0, Some(e)) => format!("{}/", e),
+                    (1, Some(e)) => format!("{}//", e),
+                    (2, Some(e)) => format!("{}/x", e),
+                    (3, Some(e)) => format!("{}%20", e),
+                    _ => self.rng().pick(&["", "zzz", "cas/x", "03gy4klv2h02u3x987n90p9hdX"]).to_string(),
+                };
+                let method = if self.rng().chance(700) { "DELETE" } else { "GET" };
+                if method == "DELETE" {
+                    self.exchange(&Req::new("DELETE", &format!("/{}", bad)), Class::Client4xx, "DELETE-id", "malformed-id", false)?;
+                } else if !bad.is_empty() && bad != "cas/x" {
+                    self.exchange(&Req::new("GET", &format!("/{}", bad)), Class::Client4xx, "GET-id", "malformed-id", false)?;
+                }
             }
         }
         self.state_check()
